@@ -96,6 +96,14 @@ func cellCase(c cellSpec, class string, nontrivial bool) Case {
 			o.OracleOK = false
 			o.Note = "decoding the same cell a second time gives another value: " + clip(again, 80)
 			o.FindingKey = "image-mutated"
+		} else if c.t != 1 && c.t != 2 && c.t != 9 && c.t != 3 && c.t != 8 {
+			// the mapper's signedness flag belongs to integer columns; it reaches the decoder for every column (the
+			// mapper describes today's schema, the binlog may predate a column change): other types must ignore it
+			if flipped := implCellBytes(exact(data), 0, byte(c.t), uint16(c.md), !c.u); flipped != ib {
+				o.OracleOK = false
+				o.Note = fmt.Sprintf("a non-integer column (type %d) decodes differently when the mapper's unsigned flag is %v: %s", c.t, !c.u, clip(flipped, 80))
+				o.FindingKey = "unsigned-flag-on-non-integer"
+			}
 		}
 		return o
 	}}
@@ -761,7 +769,11 @@ func init() {
 		Rule: "every valid (p,s), p in 1..65, s in 0..min(30,p) x {zero, all nines, single low digit, each 9-digit group first non-zero, random} x sign; non-trivial: value != 0"})
 	register(&Property{ID: "C12", Gen: genC12, Chunks: chunksC12, Extra: func(c *Collector, r *RNG, tier string) { extraC12(c, r, tier); retainedCells(c, r, tier, genC12) }, Replay: replayCell,
 		Rule: "DATE lattice (every 37th point quick / every 3rd thorough, all points of the boundary years), old TIME both signs to 838h, old DATETIME, TIME2/DATETIME2/TIMESTAMP2 fsp 0..6 boundary+random, all 2^24 raw values of the 3-byte DATE and old TIME encodings impl-vs-model in thorough, TIMESTAMP under several process time zones (offset and civil text obtained from the time package directly); non-trivial: not the all-zero value"})
-	register(&Property{ID: "C13", Gen: genC13, Extra: func(c *Collector, r *RNG, tier string) { extraC13(c, r, tier); retainedCells(c, r, tier, genC13) },
+	register(&Property{ID: "C13", Gen: genC13, Extra: func(c *Collector, r *RNG, tier string) {
+		extraC13(c, r, tier)
+		retainedCells(c, r, tier, genC13)
+		hugeCases(c, "cell")
+	},
 		Replay: func(line string) []Case {
 			if strings.HasPrefix(line, "hist ") {
 				return replayHist(line)
